@@ -212,7 +212,7 @@ func (nv *nodeVariable) Execute(ctx *ExecutionContext, writer TemplateWriter) *E
 		return err
 	}
 
-	if !nv.expr.FilterApplied("safe") && !value.safe && value.IsString() && ctx.Autoescape {
+	if !nv.expr.FilterApplied("safe") && !value.safe && (value.IsString() || rendersText(value)) && ctx.Autoescape {
 		// apply escape filter
 		value, err = filters["escape"](value, nil)
 		if err != nil {
@@ -222,6 +222,20 @@ func (nv *nodeVariable) Execute(ctx *ExecutionContext, writer TemplateWriter) *E
 
 	writer.WriteString(value.String())
 	return nil
+}
+
+// rendersText reports whether a value that is not a string itself is turned
+// into caller-provided text when printed (a fmt.Stringer, a *Value wrapped in
+// another value such as an item of an array literal, or a pointer to one of
+// these) and therefore needs escaping like a string does.
+func rendersText(v *Value) bool {
+	if v.IsNil() {
+		return false
+	}
+	if _, ok := v.Interface().(fmt.Stringer); ok {
+		return true
+	}
+	return false
 }
 
 func (executionCtxEval) Evaluate(ctx *ExecutionContext) (*Value, *Error) {
